@@ -104,7 +104,8 @@ CLAIMS = {
         "&& || ! matches! comparisons) into lean/KyroModel/Config/Generated.lean: validate : Atoms -> Bool with named safety atoms "
         "and opaque atoms for everything else. Theorem C18_validate_sound: validate a = true -> Safe a, for ALL values of every "
         "other setting, re-proved against the regenerated definition on every run; C18_unknown_environment_rejected; "
-        "C18_loopback_literals. Second tie: ~9.4k rows (quick; exhaustive in thorough) of the cross product x delivery (TOML, YAML, "
+        "C18_loopback_literals; the refusals stated outright per clause (C18_durability_refused, C18_pilot_exposure_refused, "
+        "C18_production_open_bind_refused) and C18_benchmark_ignores_durability (benchmark is the only escape). Second tie: ~9.4k rows (quick; exhaustive in thorough) of the cross product x delivery (TOML, YAML, "
         "env overrides on a safe base file, env only) through the real KyroDbConfig::load; oracle accept => Safe(row); generated "
         "model vs loader row by row. The observability listener's bind host is a dimension too (rows on the exposure boundary get "
         "every delivery route and every such host). The REAL kyrodb_server binary is started on the files of a sample of rejected rows "
